@@ -227,7 +227,7 @@ func flagSet(fs *flag.FlagSet, name string) bool {
 
 func (cr *checkRun) knownFor(id string) *knownEntry {
 	for i := range cr.known {
-		if cr.known[i].ID == id {
+		if cr.known[i].ID == id && cr.known[i].Prop == cr.check.ID {
 			return &cr.known[i]
 		}
 	}
